@@ -83,6 +83,8 @@ def m(q):
 
 UN_SRC = {
     "sorted": "sorted({x})", "sortedrev": "sorted({x}, reverse=True)", "reversed": "reversed({x})",
+    "sortedlen": "sorted({x}, key=len)", "sortedlenrev": "sorted({x}, key=len, reverse=True)",
+    "sorteditem": "sorted({x}, key=lambda e: e[1])", "sorteditemrev": "sorted({x}, key=lambda e: e[1], reverse=True)",
     "len": "len({x})", "min": "min({x})", "max": "max({x})", "any": "any({x})", "all": "all({x})",
     "enumerate": "enumerate({x})", "rangelen": "[i for i in range(len({x}))]", "mul2": "{x} * 2",
     "not": "not {x}", "keys": "[e for e in {x}.keys()]", "values": "[e for e in {x}.values()]",
@@ -225,11 +227,39 @@ HEAP_SIG = {
 STORAGE_SIG = "C16 fresh-list-result shares Go slice storage (x[i:j] aliases x; + writes into spare capacity)"
 
 
+SORT_FNS = ("sorted", "sortedrev", "sortedlen", "sortedlenrev", "sorteditem", "sorteditemrev")
+STABLE_SIG = "C16 builtin=sorted %s order-of-equal-keys differs (CPython's sort is stable, also with reverse=True)"
+
+
+def same_elements(a, b):
+    """Two lists with the same elements in a different order."""
+    if not (isinstance(a, list) and isinstance(b, list)) or len(a) != len(b) or same(a, b):
+        return False
+    rest = list(b)
+    for x in a:
+        for i, y in enumerate(rest):
+            if same(x, y):
+                del rest[i]
+                break
+        else:
+            return False
+    return True
+
+
+def sort_keys(f, lst):
+    """The keys of a result list under the key function of the statement (classification only)."""
+    if "len" in f:
+        return [len(e) for e in lst]
+    if "item" in f:
+        return [e[1] for e in lst]
+    return lst
+
+
 def fresh_list_result(st):
     """Statements whose list result is a brand-new object in CPython."""
     k, f = st["k"], st["f"]
     return (k in ("slice", "compr", "binlit") or (k == "bin" and f in ("add", "zip"))
-            or (k == "un" and f in ("sorted", "sortedrev", "reversed", "enumerate", "rangelen", "mul2", "keys", "values", "items"))
+            or (k == "un" and f in SORT_FNS + ("reversed", "enumerate", "rangelen", "mul2", "keys", "values", "items"))
             or (k == "hof" and f in ("map", "filter")) or (k == "call" and f == "f"))
 
 
@@ -459,11 +489,17 @@ def run_heap(ctx, stats):
             detail = dict(part="heap", mode=cfgname, program=(c["flat"] if mode == "b" else c["defs"] + "r = prog()\n"),
                           cpython=c["want"], asp=got, last=stmt_tag(last), menus=note,
                           chain=[dict(prog=x["prog"], expect=x["expect"], algo=x["algo"]) for x in chain])
-            singles = ["aug", "sort", "strict"] + (["fold"] if mode == "d" else [])
+            singles = [k for k in ("aug", "sort", "strict") if k in algo] + (["fold"] if mode == "d" else [])
             hit = [k for k in singles if algo[k] is not None and same(got, algo[k])]
+            others = {v: x for v, x in got.items() if v != last["a"]}
             srcv = (parent.get("want") or {}).get(last["x"]) if last["k"] in ("slice", "strm") else None
             if isinstance(srcv, str) and not srcv.isascii():
                 ctx.violation(STR_SLICE_SIG if last["k"] == "slice" else STR_METHOD_SIG % last["f"], detail)
+            elif (last["k"] == "un" and last["f"] in SORT_FNS and same_elements(got.get(last["a"]), c["want"].get(last["a"]))
+                  and same(sort_keys(last["f"], got[last["a"]]), sort_keys(last["f"], c["want"][last["a"]]))
+                  and same(others, {v: x for v, x in c["want"].items() if v != last["a"]})):
+                # the right elements, keys in the right order, nothing else changed: only elements with EQUAL keys are permuted
+                ctx.violation(STABLE_SIG % UN_SRC[last["f"]].format(x="x")[len("sorted(x"):].strip(", )") or "plain", detail)
             elif same(denil(got, c["want"]), c["want"]):
                 ctx.violation(NIL_SIG, detail)
             elif hit:
@@ -549,7 +585,8 @@ def run16(ctx):
 
 # ------------------------------------------------------------------------------------------ C18
 ROUTES = (("s", "subinclude"), ("c", "config"))
-OP_NAME = {"eq": "==", "ne": "!=", "add": "+", "radd": "+", "union": "|", "sortedrev": "sorted", "mul2": "*", "lt": "<"}
+OP_NAME = {"eq": "==", "ne": "!=", "add": "+", "radd": "+", "union": "|", "sortedrev": "sorted", "mul2": "*", "lt": "<",
+           "sortedlen": "sorted", "sortedlenrev": "sorted", "sorteditem": "sorted", "sorteditemrev": "sorted"}
 
 
 # the operations C18's statement names ("!=" is "compares equal" negated); a difference on any other
